@@ -84,6 +84,49 @@ def membership_hooks(ev, present, seen):
     return [(lambda fn_, r_: (r_ or fn_).endswith("::contains"), contains), (lambda fn_, r_: (r_ or fn_).endswith("Iterator>::any") or fn_.endswith("Iterator::any"), any_)]
 
 
+def fieldwise_sum_problems(ev, f, path):
+    """(problems, number of fields) of a `sum(self, other)` of a statistics struct: evaluated on two opaque operands A
+    and B, every field must end up as A.f + B.f (functional `Self { f: a.f + b.f }` or in-place `a.f += b.f`, operands
+    reached by field access or by destructuring) or as the nested struct's own sum(A.f, B.f)"""
+    adt_ = f.adts.get(path[:-len("::sum")])
+    if not adt_ or adt_["kind"] != "struct":
+        return ["%s is not a method of a struct" % path], 0
+    fields = [fd["name"] for fd in adt_["variants"][0]["fields"]]
+    final = {fl: "sym(A.%s)" % fl for fl in fields}
+    bad = []
+    ev.call_hooks = [(lambda fn_, r_: (r_ or fn_).endswith("::sum") and (r_ or fn_) != path and (r_ or fn_).startswith("fastpasta::stats::"),
+                      lambda n, a: Sym("SUM(%s)" % ",".join(vkey(x) for x in a)))]
+    try:
+        recs = ev.collect_ifs(path, [Sym("A"), Sym("B")])
+        ret = ev.call_fn(path, [Sym("A"), Sym("B")])
+    except Unsupported as e:
+        return ["cannot evaluate %s: %s" % (path, e)], 0
+    finally:
+        ev.call_hooks = []
+    for o in recs:
+        if "assign" not in o:
+            continue
+        op, lhs, rhs = o["assign"][:3]
+        m = re.fullmatch(r"self\.(\w+)", o.get("place") or "") or re.fullmatch(r"sym\(A\.(\w+)\)", lhs)
+        if not m or m.group(1) not in final:
+            continue
+        if [g for g in o["guard"] if g not in ("true", "not false")]:
+            bad.append("%s %s %s only under %s" % (lhs, op, rhs, list(o["guard"])))
+        elif op == "AddAssign":
+            final[m.group(1)] = "sym(Add(%s,%s))" % (final[m.group(1)], rhs)
+        elif op == "=":
+            final[m.group(1)] = rhs
+        else:
+            bad.append("%s %s %s" % (lhs, op, rhs))
+    if isinstance(ret, Agg) and set(ret.fields) == set(fields):
+        final = {fl: vkey(v) for fl, v in ret.fields.items()}
+    for fl in fields:
+        a_, b_ = "sym(A.%s)" % fl, "sym(B.%s)" % fl
+        if final[fl] not in ("sym(Add(%s,%s))" % (a_, b_), "sym(Add(%s,%s))" % (b_, a_), "sym(SUM(%s,%s))" % (a_, b_), "sym(SUM(%s,%s))" % (b_, a_)):
+            bad.append("%s becomes %s" % (fl, final[fl][:120]))
+    return bad, len(fields)
+
+
 def run(ctx, rep):
     f = ctx.facts()
     ev = Evaluator(f)
@@ -505,50 +548,8 @@ def r142(ctx, rep, f, ev, cg, reach):
     # field-wise sums add same-named fields (AlpideStats, ReadoutFlags and any later `sum`)
     nsum = 0
     for p_ in sorted(q for q in f.fns if q.startswith("fastpasta::stats::") and q.endswith("::sum") and f.fns[q].get("thir") and f.fns[q]["mir"]["argc"] == 2):
-        aggs = []
-        try:
-            r = ev.call_fn(p_, [Sym("A"), Sym("B")])
-            if isinstance(r, Agg):
-                aggs.append(("return", r))
-            recs_sum = ev.collect_ifs(p_, [Sym("A"), Sym("B")])
-            for o in recs_sum:
-                if "assign" in o and o["assign"][0] == "=" and "(" in o["assign"][2] and "=sym(Add(" in o["assign"][2]:
-                    aggs.append((o["assign"][1], o["assign"][2]))
-        except Unsupported as e:
-            rep.bad("R14.2", "R14.2|sum|%s" % p_.split("::")[-2], "cannot evaluate %s: %s" % (p_, e), p_)
-            continue
-        bad = []
-        nf = 0
-        summed = set()
-        # in-place form: self.f += other.f
-        for o in recs_sum:
-            if "assign" in o and o["assign"][0] == "AddAssign":
-                m = re.fullmatch(r"sym\(([AB])((?:\.\w+)+)\)", o["assign"][1])
-                m2 = re.fullmatch(r"sym\(([AB])((?:\.\w+)+)\)", o["assign"][2])
-                nf += 1
-                if not (m and m2 and m.group(1) != m2.group(1) and m.group(2) == m2.group(2) and not o["guard"]):
-                    bad.append("%s += %s%s" % (o["assign"][1], o["assign"][2], " under %s" % (o["guard"],) if o["guard"] else ""))
-                elif m:
-                    summed.add(m.group(2).split(".")[-1])
-        for where_, a in aggs:
-            txt = vkey(a) if not isinstance(a, str) else a
-            for m in re.finditer(r"(\w+)=sym\(Add\(sym\(([AB])((?:\.\w+)*)\),sym\(([AB])((?:\.\w+)*)\)\)\)", txt):
-                nf += 1
-                fld, r1, p1, r2, p2 = m.groups()
-                if not (r1 != r2 and p1 == p2 and p1.split(".")[-1] == fld):
-                    bad.append("%s = %s%s + %s%s" % (fld, r1, p1, r2, p2))
-                else:
-                    summed.add(fld)
-            # fields that are not a plain sum of two operands
-            for m in re.finditer(r"(\w+)=(?!sym\(Add\(sym\([AB][\.\w]*\),sym\([AB][\.\w]*\)\)\))([^,()]*\([^=]*?)(?=,\w+=|\)$)", txt):
-                pass
+        bad, nf = fieldwise_sum_problems(ev, f, p_)
         nsum += 1
-        # in the in-place form every field of the struct has to be added (a forgotten field keeps the left operand's value)
-        adt_ = f.adts.get(p_[:-len("::sum")])
-        if adt_ and adt_["kind"] == "struct" and any(o.get("assign", ("",))[0] == "AddAssign" for o in recs_sum):
-            missing = [fd["name"] for fd in adt_["variants"][0]["fields"] if fd["name"] not in summed]
-            if missing:
-                bad.append("fields never added: %s" % missing)
         rep.check(not bad and nf > 0, "R14.2", "R14.2|sum|%s" % p_.split("::")[-2], "%s::sum adds same-named fields of both operands (%d fields)" % (p_.split("::")[-2], nf), p_,
                   "%s::sum mixes fields: %s" % (p_.split("::")[-2], bad or "no field-wise sum recognised"))
     rep.floor("R14.2-sums", nsum, 2, "field-wise sum functions of the statistics structs")
